@@ -14,8 +14,13 @@
     * `parseRealms_total`, `v0_one_line_block_panics`
                                    : splitting the [realms] section into realm blocks never panics (the
                                      unrepaired code did on `REALM = { }`)
-  Whole-file parsing (sections, comments, whitespace, booleans, durations, enctype lists) is covered by the
-  correspondence run with rendered configurations; it is not proved at the string level.
+    * `hms_canonical`, `hms_two_parts`, `hms_arity`, `hms_range`
+                                   : the h:m[:s] duration form denotes h*3600 + m*60 + s seconds: every
+                                     number of seconds n (with n/3600 in the 16-bit range) written as
+                                     h:m:s is read back as n; other arities and parts outside the 16-bit
+                                     range are errors
+  Whole-file parsing (sections, comments, whitespace, booleans, the other duration formats, enctype lists) is
+  covered by the correspondence run with rendered configurations; it is not proved at the string level.
 -/
 import Krb.Model.Conf
 namespace Krb.C16
@@ -311,5 +316,56 @@ example : (parseRealm [
     .ok { admin := [], kdc := [['k', '1', ':', '8', '8'], ['k', '2', ':', '8', '8']], kpasswd := [],
           master := [], defaultDomain := [] } := by
   decide
+
+/-! durations: the h:m[:s] form -/
+
+theorem int16Ok_nat (k : Nat) (h : k ≤ 32767) : int16Ok (k : Int) = true := by
+  simp [int16Ok]; omega
+
+/-- **hms_canonical.** every number of seconds, written as hours:minutes:seconds, is read back exactly -/
+theorem hms_canonical (n : Nat) (h : n / 3600 ≤ 32767) :
+    hmsSeconds [(n / 3600 : Nat), (n % 3600 / 60 : Nat), (n % 60 : Nat)] = some (n : Int) := by
+  have a1 := int16Ok_nat (n / 3600) h
+  have a2 := int16Ok_nat (n % 3600 / 60) (by omega)
+  have a3 := int16Ok_nat (n % 60) (by omega)
+  have hall : [((n / 3600 : Nat) : Int), ((n % 3600 / 60 : Nat) : Int), ((n % 60 : Nat) : Int)].all int16Ok = true := by
+    simp only [List.all_cons, List.all_nil, a1, a2, a3, Bool.and_self]
+  unfold hmsSeconds
+  rw [hall]
+  simp
+  omega
+
+/-- **hms_two_parts.** whole minutes written as hours:minutes -/
+theorem hms_two_parts (k : Nat) (h : k / 60 ≤ 32767) :
+    hmsSeconds [(k / 60 : Nat), (k % 60 : Nat)] = some ((k : Int) * 60) := by
+  have a1 := int16Ok_nat (k / 60) h
+  have a2 := int16Ok_nat (k % 60) (by omega)
+  have hall : [((k / 60 : Nat) : Int), ((k % 60 : Nat) : Int)].all int16Ok = true := by
+    simp only [List.all_cons, List.all_nil, a1, a2, Bool.and_self]
+  unfold hmsSeconds
+  rw [hall]
+  simp
+  omega
+
+/-- **hms_arity.** fewer than two or more than three parts are an error -/
+theorem hms_arity (parts : List Int) (h : parts.length < 2 ∨ parts.length > 3) : hmsSeconds parts = none := by
+  unfold hmsSeconds
+  rcases h with h | h <;> simp [h]
+
+/-- **hms_range.** a part outside the 16-bit signed range is an error -/
+theorem hms_range (parts : List Int) (p : Int) (hp : p ∈ parts) (h : p < -32768 ∨ p > 32767) :
+    hmsSeconds parts = none := by
+  unfold hmsSeconds
+  have : parts.all int16Ok = false := by
+    rw [List.all_eq_false]
+    refine ⟨p, hp, ?_⟩
+    simp [int16Ok]; omega
+  split
+  · rfl
+  · simp [this]
+
+example : hmsSeconds [25, 1, 1] = some 90061 := by decide
+example : hmsSeconds [-1, 30] = some (-1800) := by decide
+example : hmsSeconds [32768, 0] = none := by decide
 
 end Krb.C16
